@@ -391,7 +391,23 @@ func splitPeriod(mpd *m.MPD, a *asset, cfg *ResponseConfig, wTimes wrapTimes) er
 	}
 
 	startPeriodNr := wTimes.startTimeMS / (periodDur * 1000)
-	endPeriodNr := wTimes.nowMS / (periodDur * 1000)
+	nowPeriodNr := wTimes.nowMS / (periodDur * 1000)
+	// With an availabilityTimeOffset segments are available before they end: the newest one may
+	// already start in the wall-clock period after the one holding now.
+	endMS := wTimes.nowMS
+	if ato := cfg.getAvailabilityTimeOffsetS(); ato > 0 && !math.IsInf(ato, +1) {
+		// A segment that has ended by now+ato started before that instant. With a SegmentTimeline a
+		// coming period that turns out to list nothing is left out below; a $Number$ template has
+		// no list to look at, so the (average) segment duration decides.
+		newestStartMS := wTimes.nowMS + int(ato*1000) - 1
+		if cfg.liveMPDType() == segmentNumber {
+			newestStartMS = wTimes.nowMS + int(ato*1000) - a.SegmentDurMS
+		}
+		if newestStartMS > endMS {
+			endMS = newestStartMS
+		}
+	}
+	endPeriodNr := endMS / (periodDur * 1000)
 	inPeriod := mpd.Periods[0]
 	nrPeriods := endPeriodNr - startPeriodNr + 1
 	periods := make([]*m.Period, 0, nrPeriods)
@@ -442,6 +458,9 @@ func splitPeriod(mpd *m.MPD, a *asset, cfg *ResponseConfig, wTimes wrapTimes) er
 				as.SupplementalProperties = append(as.SupplementalProperties, &periodContinuity)
 			}
 		}
+		if pNr > nowPeriodNr && periodIsEmpty(p, cfg) {
+			continue // nothing of the coming period is available yet
+		}
 		periods = append(periods, p)
 	}
 	mpd.Periods = nil
@@ -449,6 +468,15 @@ func splitPeriod(mpd *m.MPD, a *asset, cfg *ResponseConfig, wTimes wrapTimes) er
 		mpd.AppendPeriod(p)
 	}
 	return nil
+}
+
+// periodIsEmpty tells if a period with SegmentTimeline lists no segment in its first adaptation set.
+func periodIsEmpty(p *m.Period, cfg *ResponseConfig) bool {
+	if cfg.liveMPDType() == segmentNumber || len(p.AdaptationSets) == 0 {
+		return false
+	}
+	st := p.AdaptationSets[0].SegmentTemplate
+	return st != nil && st.SegmentTimeline != nil && len(st.SegmentTimeline.S) == 0
 }
 
 func reduceS(entries []*m.S, startNr *uint32, timescale int, periodStartS, periodEndS uint64) ([]*m.S, *uint32) {
